@@ -249,6 +249,11 @@ class DocEngine:
         elif name in ("ins_style", "ins_style_other"):
             op = doc_styles.gen_insert(self, rng, n, "main" if name == "ins_style" else "other")
             op["op"] = name
+            if name == "ins_style_other" and op["family"] in doc_styles.STD_FAMILIES and rng.chance(0.3, "styles_auto"):
+                op["into_styles_automatic"] = True
+                op["kind"] = "common"
+                op["name"] = rng.choice(["simX", "simY"], "sa_name")
+                op["name_via"] = "ctor"
             if dt:
                 op["dt"] = dt
         elif name == "open_other":
@@ -1297,6 +1302,22 @@ class DocEngine:
     def _op_ins_style_other(self, op):
         if self.other is None:
             return []
+        if op.get("into_styles_automatic"):
+            # an automatic style of styles.xml in the other document (as office suites write for
+            # headers/footers), put there through the element API: a name the receiving document
+            # may hold as a COMMON style
+            try:
+                style = doc_styles.build_style(op)
+                cont = self.other.styles.get_element("//office:automatic-styles")
+                old = [e for e in cont.children if getattr(e, "family", None) == op["family"] and getattr(e, "name", None) == op.get("name")]
+                for e in old:
+                    cont.delete(e)
+                cont.append(style)
+                self.flags.add("other_has_styles_xml_automatic_style")
+            except Exception:
+                pass
+            self._outcome = "ins_style_other:styles_automatic"
+            return []
         keep = self.c13_inserted
         self.c13_inserted = []
         vs = doc_styles.run_insert(self, op, self.other, ["on_other_document"])
@@ -1319,6 +1340,8 @@ class DocEngine:
             return []
         doc, st = self.sut.doc, self.sut.store
         vs = doc_styles.run_merge(self, op, doc, self.other, self._feats())
+        if "other_has_styles_xml_automatic_style" in self.flags:
+            self.flags.add("merged_styles_xml_automatic")
         st.touched |= {"content.xml", "styles.xml", ds.MANIFEST}
         for n in doc.container._Container__parts:  # inspection only: files the merge brought in
             if n not in st.names() and doc.container._Container__parts[n] is not None:
